@@ -372,3 +372,46 @@ def check_debug_regions(rep, dbg):
                 n += 1
                 rep.bad('PROFILE', f'PROFILE-ASSIGN:{b.path}', loc(node), 'assignment inside a debug_assert', 'debug-only code has no effect on program state', fn=b.path)
     return n
+
+
+# ---------------------------------------------------------------- debug-only sibling of bw::rta_subchain
+
+def check_bw_brute_force(rep, dbg):
+    """the brute-force enumeration zipped onto the production steps (debug builds only) is Lemma 19 over 0..=max_offset:
+       eoc: eta(t) != eta(t+1)   [production: steps - 1];   polled cb: t > 0 and eta(t-1) != eta(t)   [production: steps]"""
+    from .rta_model import is_tag, search_calls
+    from . import rules_ros2 as R2
+    path = 'ros2::bw::rta_subchain'
+    b = dbg.body(path)
+    if b is None:
+        rep.bad('ANCHOR', 'ANCHOR:bw:brute', path, 'entry point not found', fn=path)
+        return
+    ev = Evaluator(dbg)
+    top = T.unroot(ev.eval_body(b))
+    zips = [x for x in T.subterms(top) if is_tag(x, 'zip')]
+    where = loc(b.raw)
+    if len(zips) != 1:
+        rep.bad('BW-SIB', 'BW-SIB:zip', where, f'{len(zips)} zip stages in the debug configuration', 'production steps zipped with the brute-force enumeration', fn=path)
+        return
+    brute = T.unroot(zips[0][2])
+    mo = search_calls(brute)
+    EOC, WL = R2.EOC, R2.WL
+    t_ = T.bv(0)
+    cb = T.bv(1)
+    eta = lambda d: R2.eta(cb, d)
+    is_pp = ('matches', R2.F(cb, 'kind'), 'ros2::rr::CallbackType::Polled(_)|ros2::rr::CallbackType::PolledUnknownPrio')
+    is_eoc = ('ptreq', *sorted([cb, EOC], key=T.key))
+    pred_eoc = T.tand(is_eoc, T.tnot(T.eq0(T.sub(eta(t_), eta(T.add(t_, T.const(1)))))))
+    pred_cb = T.tand(T.tnot(is_eoc), is_pp, T.cmp('Gt', t_, T.const(0)), T.tnot(T.eq0(T.sub(eta(T.sub(t_, T.const(1))), eta(t_)))))
+    want_pred = ('any', ('elems', WL), ('lam', 1, T.tor(pred_eoc, pred_cb)))
+    if len(mo) != 1:
+        rep.bad('BW-SIB', 'BW-SIB:range', where, 'the brute-force enumeration is not bounded by the max-offset search', '0..=max_offset', fn=path,
+                direction='a debug build does not terminate when nothing ever matches; a release build returns')
+        return
+    want = ('map', ('filter', ('range', T.const(0), T.add(T.root(('try', mo[0])), T.const(1))), ('lam', 0, want_pred)), ('lam', 0, T.as_lin(t_)))
+    if T.same(brute, want):
+        rep.ok('BW-SIB', 'BW-SIB:lemma19', where, 'brute force enumerates t in 0..=max_offset with eta_eoc(t) != eta_eoc(t+1) or (polled, t>0, eta_cb(t-1) != eta_cb(t)): '
+               'the same shifts as the production search space (eoc steps - 1, polled steps + 0)', fn=path)
+    else:
+        rep.bad('BW-SIB', 'BW-SIB:lemma19', where, f'brute force is {T.show(T.canon(brute))[:400]}', T.show(T.canon(want))[:400], fn=path,
+                direction='debug builds assert against a different enumeration than release builds use')
